@@ -134,17 +134,27 @@ impl VmMem {
         start
     }
 
+    /// First address not yet handed out (for placing a reference memory next to this one).
+    pub fn next_addr(&self) -> u64 {
+        self.next
+    }
+
     /// Import a reference memory: one region per reference allocation (so cross-buffer reads are
     /// caught), addresses preserved.
     pub fn import(&mut self, m: &refabi::RefMem) {
-        for (addr, size, align) in &m.allocs {
+        self.import_as(m, RegionKind::Harness, 0)
+    }
+
+    /// Like `import`, with an explicit region kind, skipping the first `skip` allocations.
+    pub fn import_as(&mut self, m: &refabi::RefMem, kind: RegionKind, skip: usize) {
+        for (addr, size, align) in m.allocs.iter().skip(skip) {
             if *size == 0 {
                 continue;
             }
             let bytes = m.read(*addr, *size).unwrap();
             self.regions.insert(
                 *addr,
-                Region { start: *addr, bytes, align: *align, live: true, kind: RegionKind::Harness, consumed: false },
+                Region { start: *addr, bytes, align: *align, live: true, kind, consumed: false },
             );
             self.next = self.next.max(addr + size + 1);
         }
@@ -283,6 +293,41 @@ type R<T> = Result<T, String>;
 
 fn err<T>(class: &str, msg: impl std::fmt::Display) -> R<T> {
     Err(format!("{class}: {msg}"))
+}
+
+/// `Bitcast` semantics: the spec's reinterpret / zero-extend / wrap rules; pointer and length
+/// kinds are `w` bytes wide, pointer-or-i64 is always 64 bits.
+pub fn apply_cast(c: &OCast, v: V, w: Width) -> Result<V, String> {
+    let ptr_mask = |x: u64| if w == Width::W4 { x & 0xffff_ffff } else { x };
+    let bad = |v: &V| err("vm:kind", format!("bitcast {c:?} applied to {}", v.kind()));
+    Ok(match (c, &v) {
+        (OCast::None, _) => v,
+        (OCast::F32ToI32, V::F32(b)) => V::I32(*b),
+        (OCast::F64ToI64, V::F64(b)) => V::I64(*b),
+        (OCast::I32ToI64, V::I32(x)) => V::I64(*x as u64),
+        (OCast::F32ToI64, V::F32(b)) => V::I64(*b as u64),
+        (OCast::I32ToF32, V::I32(x)) => V::F32(*x),
+        (OCast::I64ToF64, V::I64(x)) => V::F64(*x),
+        (OCast::I64ToI32, V::I64(x)) => V::I32(*x as u32),
+        (OCast::I64ToF32, V::I64(x)) => V::F32(*x as u32),
+        (OCast::P64ToI64, V::P64(x)) => V::I64(*x),
+        (OCast::I64ToP64, V::I64(x)) => V::P64(*x),
+        (OCast::P64ToP, V::P64(x)) => V::Ptr(ptr_mask(*x)),
+        (OCast::PToP64, V::Ptr(x)) => V::P64(*x),
+        (OCast::I32ToP, V::I32(x)) => V::Ptr(*x as u64),
+        (OCast::PToI32, V::Ptr(x)) => V::I32(*x as u32),
+        (OCast::PToL, V::Ptr(x)) => V::Len(*x),
+        (OCast::LToP, V::Len(x)) => V::Ptr(*x),
+        (OCast::I32ToL, V::I32(x)) => V::Len(*x as u64),
+        (OCast::LToI32, V::Len(x)) => V::I32(*x as u32),
+        (OCast::I64ToL, V::I64(x)) => V::Len(ptr_mask(*x)),
+        (OCast::LToI64, V::Len(x)) => V::I64(*x),
+        (OCast::Sequence(s), _) => {
+            let a = apply_cast(&s[0], v, w)?;
+            apply_cast(&s[1], a, w)?
+        }
+        _ => return bad(&v),
+    })
 }
 
 impl<'a> Exec<'a> {
@@ -425,14 +470,6 @@ impl<'a> Exec<'a> {
         }
     }
 
-    fn ptr_mask(&self, x: u64) -> u64 {
-        if self.width == Width::W4 {
-            x & 0xffff_ffff
-        } else {
-            x
-        }
-    }
-
     fn ty(&self, t: &Type) -> Ty {
         ty_of(self.resolve, t)
     }
@@ -458,35 +495,7 @@ impl<'a> Exec<'a> {
     }
 
     fn cast(&self, c: &OCast, v: V) -> R<V> {
-        let bad = |v: &V| err("vm:kind", format!("bitcast {c:?} applied to {}", v.kind()));
-        Ok(match (c, &v) {
-            (OCast::None, _) => v,
-            (OCast::F32ToI32, V::F32(b)) => V::I32(*b),
-            (OCast::F64ToI64, V::F64(b)) => V::I64(*b),
-            (OCast::I32ToI64, V::I32(x)) => V::I64(*x as u64),
-            (OCast::F32ToI64, V::F32(b)) => V::I64(*b as u64),
-            (OCast::I32ToF32, V::I32(x)) => V::F32(*x),
-            (OCast::I64ToF64, V::I64(x)) => V::F64(*x),
-            (OCast::I64ToI32, V::I64(x)) => V::I32(*x as u32),
-            (OCast::I64ToF32, V::I64(x)) => V::F32(*x as u32),
-            (OCast::P64ToI64, V::P64(x)) => V::I64(*x),
-            (OCast::I64ToP64, V::I64(x)) => V::P64(*x),
-            (OCast::P64ToP, V::P64(x)) => V::Ptr(self.ptr_mask(*x)),
-            (OCast::PToP64, V::Ptr(x)) => V::P64(*x),
-            (OCast::I32ToP, V::I32(x)) => V::Ptr(*x as u64),
-            (OCast::PToI32, V::Ptr(x)) => V::I32(*x as u32),
-            (OCast::PToL, V::Ptr(x)) => V::Len(*x),
-            (OCast::LToP, V::Len(x)) => V::Ptr(*x),
-            (OCast::I32ToL, V::I32(x)) => V::Len(*x as u64),
-            (OCast::LToI32, V::Len(x)) => V::I32(*x as u32),
-            (OCast::I64ToL, V::I64(x)) => V::Len(self.ptr_mask(*x)),
-            (OCast::LToI64, V::Len(x)) => V::I64(*x),
-            (OCast::Sequence(s), _) => {
-                let a = self.cast(&s[0], v)?;
-                self.cast(&s[1], a)?
-            }
-            _ => return bad(&v),
-        })
+        apply_cast(c, v, self.width)
     }
 
     fn conv(&self, c: Conv, v: V) -> R<V> {
